@@ -24,6 +24,7 @@ import Vlsp.Model.Sites
 import Vlsp.Model.Parsers
 import Vlsp.Model.Pos
 import Vlsp.Model.Pypi
+import Vlsp.Props.C04Layout
 import Vlsp.Model.Config
 
 /-! Line-protocol plumbing shared by the driver's op tables. -/
@@ -477,6 +478,28 @@ def allNodesList : List Node → List Node
   | [] => []
   | c :: rest => allNodes c ++ allNodesList rest
 end
+
+def ajsonStr : C04.AJson → String
+  | .str t c => s!"s{hex t}{if c then "" else "!"}"
+  | .other k => s!"o({k})"
+  | .obj ms => "{" ++ ",".intercalate (ms.map fun m =>
+      (match m.1 with | some k => hex k | none => "-") ++ ":" ++
+      (match m.2 with
+       | some (.str t c) => s!"s{hex t}{if c then "" else "!"}"
+       | some (.other k) => s!"o({k})"
+       | some (.obj ms2) => "{" ++ ",".intercalate (ms2.map fun m2 =>
+           (match m2.1 with | some k => hex k | none => "-") ++ ":" ++
+           (match m2.2 with | some (.str t c) => s!"s{hex t}{if c then "" else "!"}" | some (.other k) => s!"o({k})" | some (.obj _) => "{..}" | none => "-")) ++ "}"
+       | none => "-")) ++ "}"
+
+/-- `x.abs <eco> <text> <dump>` : the abstract JSON reading of the real tree (the premise of the layout theorems) -/
+def absStep (op : String) (f : List Text) : Option String :=
+  match op, f with
+  | "x.abs", [_, text, dump] =>
+    match treeOfDump dump with
+    | none => some "-"
+    | some tree => some (match C04.absRoot text tree with | some a => ajsonStr a | none => "-")
+  | _, _ => none
 
 /-- the PyPI matcher model, the PEP 440 library's answers supplied with the request:
     `pypi.base <spec>` ; `pypi.exists <spec> <specOk> (<v> <verOk> <contains>)*` ;
